@@ -246,6 +246,22 @@ def ldmjob(rng):
     return bytes(x), jmb
 
 
+def ringlap(rng, wl, n):
+    """Huffman-compressible bytes (flat alphabet) whose matches sit at distances just below the window size 2^wl: in a streaming decoder
+    every such match reads history from the far end of the window, i.e. from the previous lap of the decoder's ring buffer"""
+    W = 1 << wl
+    A = rng.choice([24, 40, 64]); base = rng.randrange(256 - A)
+    x = bytearray(base + rng.randrange(A) for _ in range(n))
+    pos = W
+    while pos + 40 < n:
+        ln = rng.choice([6, 8, 12, 20, 30])
+        dist = W - rng.choice([0, 1, 2, 5, 17, 40, 100])
+        if pos - dist >= 0:
+            x[pos:pos + ln] = x[pos - dist:pos - dist + ln]
+        pos += ln + rng.randint(20, 300)
+    return bytes(x)
+
+
 def subtail(rng, nblocks):
     """128 KiB blocks made of one or two long copies of earlier data followed by a short incompressible tail holding a single short match;
     the next block starts by re-using that match's distance. With ZSTD_c_targetCBlockSize the tail becomes a raw sub-block whose
